@@ -50,6 +50,9 @@ func wirePool(a *aspec.ASpec) {
 	)
 	for _, t := range wireTypes {
 		a.Schemas = append(a.Schemas, aspec.NamedSchema{Name: "Ref" + strings.Title(t), Schema: aspec.Schema{K: t}})
+		if t != "datetime" { // (an array component of date-time does not compile: open finding c01-array-datetime)
+			a.Schemas = append(a.Schemas, aspec.NamedSchema{Name: "Arr" + strings.Title(t), Schema: aspec.Schema{K: "array", Items: &aspec.Schema{K: t}}})
+		}
 	}
 	// header components whose keys coincide with header names used elsewhere for other declarations
 	a.Headers = append(a.Headers,
@@ -205,8 +208,24 @@ func randWireOp(a *aspec.ASpec, k int, rng *rand.Rand) wireOp {
 		// parameter attributes that do not change what must arrive (defaults spelled out, allowReserved - which only
 		// permits reserved characters to travel unencoded -, deprecated, allowEmptyValue), rotating over the operations
 		attrs := []map[string]any{nil, {"allowReserved": true}, {"style": "form", "explode": true}, nil, {"deprecated": true}, {"allowReserved": true, "explode": true}, {"allowEmptyValue": true}}[(k+len(params))%7]
+		joined := false
+		if arr {
+			// an array parameter whose whole schema is a $ref to an array component, in turn; and `explode: false` (the
+			// comma-joined form; the generator may send either form as long as the server reads what the client writes:
+			// the judge takes both spellings of such a parameter for the same list of lexemes)
+			if (k+len(params))%3 == 1 && typ != "datetime" {
+				s = aspec.Schema{K: "ref", To: "Arr" + strings.Title(typ)}
+			}
+			if (k+len(params))%2 == 1 {
+				attrs = map[string]any{"explode": false}
+				if (k+len(params))%4 == 3 {
+					attrs["style"] = "form"
+				}
+				joined = true
+			}
+		}
 		params = append(params, aspec.Param{In: "query", Name: n, Req: req, Schema: s, Attrs: attrs})
-		ds = append(ds, decl{In: "query", Name: n, Type: typ, Array: arr, Req: req})
+		ds = append(ds, decl{In: "query", Name: n, Type: typ, Array: arr, Req: req, Joined: joined})
 	}
 	hnames := []string{"X-Request-Id", "x-trace", "If-Version"}
 	rng.Shuffle(len(hnames), func(i, j int) { hnames[i], hnames[j] = hnames[j], hnames[i] })
@@ -863,8 +882,14 @@ func wireEvent(e map[string]any, w wireOp, base []string) map[string]any {
 		case "query":
 			declared[d.Name] = true
 			for _, v := range q[d.Name] {
-				cls, tok := classify(d.Type, v)
-				se.Lex = append(se.Lex, supLex{Cls: cls, Tok: tok})
+				vs := []string{v}
+				if d.Joined {
+					vs = strings.Split(v, ",") // explode: false - one pair may carry several items
+				}
+				for _, x := range vs {
+					cls, tok := classify(d.Type, x)
+					se.Lex = append(se.Lex, supLex{Cls: cls, Tok: tok})
+				}
 			}
 		case "header":
 			for k, vs := range hdr {
